@@ -294,7 +294,7 @@ impl Prop for C02 {
     }
     fn assumptions(&self) -> Vec<String> {
         vec![
-            "sync parser only in this check (Request::from_stream<T: Read>); the tokio parser is a textual twin and is not exercised here".into(),
+            "this phase is the sync parser (Request::from_stream<T: Read>); the async parser is exercised by the twin phase C02T of the same check".into(),
             "at most one Cookie and one X-Forwarded-For field per request (the accessors read the first)".into(),
             "header values are generated without leading/trailing whitespace, names without whitespace".into(),
         ]
